@@ -75,14 +75,34 @@ class NeverEq:
     def __repr__(self): return "NeverEq()"
 
 
+class Flag(int):
+    """An int whose comparisons answer with the integer flags 0 / 1 (as many C-backed types do) instead of bools."""
+    def __lt__(self, other): return int(int(self) < other)
+    def __le__(self, other): return int(int(self) <= other)
+    def __gt__(self, other): return int(int(self) > other)
+    def __ge__(self, other): return int(int(self) >= other)
+    def __eq__(self, other): return int(int(self) == other)
+    def __ne__(self, other): return int(int(self) != other)
+    def __hash__(self): return int.__hash__(self)
+    def __repr__(self): return "Flag({})".format(int(self))
+
+
+class OddDict(dict):
+    """A dict sub-class with its own keys() / __getitem__: ``f(**d)`` and ``{**d}`` take CPython's fast path and see the stored items."""
+    def keys(self): return list(dict.keys(self))
+    def __getitem__(self, key): return dict.__getitem__(self, key) + 100
+
+
 def exotic_valuations():
-    """Valuations 4..7: the int parameters (and list elements) hold legal objects with unusual __eq__ / truth."""
+    """Valuations 4..8: the int parameters (and list elements) hold legal objects with unusual __eq__ / truth."""
     base = valuations()[1]
     nan = float("nan")
     out = []
-    for x, y, xs in ((AnyEq(), 0, [1, 2]), (Elementwise(), 0, [Elementwise()]), (NeverEq(), AnyEq(), [NeverEq(), 1]), (nan, 0, [nan])):
+    for x, y, xs in ((AnyEq(), 0, [1, 2]), (Elementwise(), 0, [Elementwise()]), (NeverEq(), AnyEq(), [NeverEq(), 1]), (nan, 0, [nan]), (Flag(3), Flag(0), [Flag(1), Flag(0)])):
         v = dict(base)
         v.update({"x": x, "y": y, "xs": xs, "o": Obj(x, [x])})
+        if isinstance(x, Flag):
+            v["d"] = OddDict(a=1)
         out.append(v)
     return out
 
@@ -143,6 +163,9 @@ PRODS = {
         ("isinstance({0}, int)", ["int"]), ("bool({0})", ["int"]), ("{0} == {1}", ["list", "list"]), ("{0} == {1}", ["str", "str"]),
         ("{0} in {1}", ["str", "dict"]), ("bool({0})", ["list"]), ("{0} == len({1})", ["int", "list"]), ("{0}.startswith({1})", ["str", "str"]),
         ("ident({0})", ["bool"]),
+        # quantifiers over elements that are not bools: the call still gives True / False, whatever the falsifying element was
+        ("all(v for v in {0})", ["list"]), ("any(v for v in {0})", ["list"]), ("all(v - {0} for v in {1})", ["int", "list"]),
+        ("all(w[:v] for v in {0} for w in [{1}])", ["list", "list"]),
         # a named expression inside a comprehension binds in the scope of the lambda: afterwards GW is NOT the module global (7)
         ("(any((GW := v) > {0} for v in {1}) and GW > 1)", ["int", "list"]),
         ("((GW := {0}) > 1 and GW + 1 > {1})", ["int", "int"]),
